@@ -81,6 +81,9 @@ pub enum FKind {
     Linear,
     /// 1e-18 * sphere: improvements far below f64::EPSILON in absolute terms
     Tiny,
+    /// sum |x - 0.3| + 0.5, plus 1 for every coordinate that is a negative zero: tells apart solutions
+    /// that compare equal with `==` (like atan2 across its branch cut)
+    ZeroSign,
 }
 
 #[derive(Clone)]
@@ -100,6 +103,7 @@ impl RealP {
             FKind::Shifted => x.iter().map(|v| (v - 0.3).abs()).sum::<f64>() + 0.5,
             FKind::Linear => x.iter().sum::<f64>() + 100.0,
             FKind::Tiny => 1e-18 * x.iter().map(|v| v * v).sum::<f64>(),
+            FKind::ZeroSign => x.iter().map(|v| (v - 0.3).abs()).sum::<f64>() + 0.5 + x.iter().filter(|v| **v == 0.0 && v.is_sign_negative()).count() as f64,
         }
     }
 }
@@ -138,6 +142,7 @@ impl KnownOptimumProblem for RealP {
             FKind::Shifted => 0.5,
             FKind::Linear => self.dom.iter().map(|d| d.start).sum::<f64>() + 100.0,
             FKind::Tiny => 0.0,
+            FKind::ZeroSign => 0.5,
         };
         SingleObjective::try_from(v).unwrap()
     }
